@@ -739,14 +739,19 @@ ElemNumber::getPreviousNode(
             // Get the previous sibling, if there is no previous sibling, 
             // then count the parent, but if there is a previous sibling, 
             // dive down to the lowest right-hand (last) child of that sibling.
-            XalanNode* next = pos->getPreviousSibling();
+            // (An attribute has no siblings: the node before it is
+            // the element that bears it.)
+            XalanNode* next =
+                XalanNode::ATTRIBUTE_NODE == pos->getNodeType() ?
+                    0 :
+                    pos->getPreviousSibling();
 
             if(0 == next)
             {
                 // The document node is an ancestor like any
                 // other: the patterns may match it.  Its parent
                 // is 0, which ends the walk.
-                next = pos->getParentNode();
+                next = DOMServices::getParentOfNode(*pos);
             }
             else
             {
